@@ -169,6 +169,9 @@ def run(ctx):
             ctx.probe("update_with_outliers_excluded_from_n", out["with_outliers"])
         for key, detail in out["problems"]:
             ctx.violation(key, detail + " | run seed %d" % out["seed"], {"world": "loop", "seed": out["seed"], "key": key})
+    n_exc = sum(1 for o in lres if o["exc"])
+    if n_exc > 0.25 * len(lres):
+        raise runner.HarnessError("%d of %d simulated runs raised; the run-loop half cannot be judged (see C19)" % (n_exc, len(lres)))
     ctx.cov["evaluations"] = tot + len(lres)
     ctx.cov["distinct_nontrivial"] = len(sig)
     ctx.cov["device_level_tuples"] = tot
